@@ -14,10 +14,13 @@ numbers and over an arbitrary rest of the line, or (for the two structural opera
 end) a statement about whole documents.
 
 Per operator of the catalogue:
-* bad-width ............ `alias_type_rejected`, `bad_width_alias_rejected` (alias lines); other sites of an integer
-                         type (member types, enum base, array elements, `sizeof`, `make_*`): no theorem
-* wrong-case ........... `wrong_case_alias_name_rejected` (declared name of an alias); member / enum / struct names: none
-* one-char-name ........ `one_char_alias_name_rejected` (alias); other names: none
+* bad-width ............ `alias_type_rejected`, `bad_width_alias_rejected` (alias lines), `bad_width_member_rejected`
+                         (type of a member); enum base, array elements, `sizeof`, `make_*` arguments: no theorem
+* wrong-case ........... `wrong_case_alias_name_rejected` (declared name of an alias), `wrong_case_member_name_rejected`
+                         (a member name with its first letter in upper case); enum / struct names, lower-cased
+                         constants: none
+* one-char-name ........ `one_char_alias_name_rejected` (alias), `one_char_member_name_rejected` (members and enum
+                         values); enum / struct names: none
 * unknown-keyword ...... `unknown_statement_keyword_rejected` (every statement keyword at the start of a line, and the
                          unnamed `inline`), `unknown_member_keyword_rejected` (`array`, `make_reserved`, `sizeof`,
                          `inline` after `=`), `unknown_const_keyword_rejected` (`make_const`), `unknown_if_rejected`;
@@ -279,6 +282,25 @@ theorem unknown_condition_operator_rejected (name : String) (hn : IsMemberName n
 theorem unknown_transform_rejected (p : String) (hp : IsPropName p) (rest : Chars) :
     LineRejected ('@' :: 'c' :: 'o' :: 'm' :: 'p' :: 'a' :: 'r' :: 'e' :: 'r' :: '(' :: (p.toList ++ '!' :: 'x' :: rest)) :=
   unknown_transform p hp rest
+
+/-! ### widths and names in member lines -/
+
+/-- Operator `bad-width` on the type of a member: `name = uint24…`, `name = int24…`. -/
+theorem bad_width_member_rejected (name : String) (hn : IsMemberName name) (rest : Chars) :
+    LineRejected (name.toList ++ ' ' :: '=' :: ' ' :: 'u' :: 'i' :: 'n' :: 't' :: '2' :: '4' :: rest) ∧
+    LineRejected (name.toList ++ ' ' :: '=' :: ' ' :: 'i' :: 'n' :: 't' :: '2' :: '4' :: rest) :=
+  bad_width_member name hn rest
+
+/-- Operator `one-char-name` on a member or enum value: a one-letter name before `=`. -/
+theorem one_char_member_name_rejected (c : Char) (hc : isLower c = true ∨ isUpper c = true) (rest : Chars) :
+    LineRejected (c :: ' ' :: '=' :: rest) :=
+  one_char_member_name c hc rest
+
+/-- Operator `wrong-case` on a member name: a line that starts with an upper-case letter followed by a lower-case
+    letter is accepted in no context (a type name never starts a line). -/
+theorem wrong_case_member_name_rejected (a b : Char) (ha : isUpper a = true) (hb : isLower b = true) (rest : Chars) :
+    LineRejected (a :: b :: rest) :=
+  wrong_case_member_name a b ha hb rest
 
 /-! ### brackets and arities -/
 
